@@ -74,14 +74,31 @@ func (p *ProofU) correctResponseSizes(pk *gabikeys.PublicKey) bool {
 	return p.VPrimeResponse.Cmp(minimum) >= 0 && p.VPrimeResponse.Cmp(maximum) <= 0
 }
 
+// verifyStructure checks that all mandatory values are present and that the user responses
+// refer to bases that exist in the public key, so that untrusted proofs cannot cause panics.
+func (p *ProofU) verifyStructure(pk *gabikeys.PublicKey) bool {
+	if p.U == nil || p.C == nil || p.VPrimeResponse == nil || p.SResponse == nil {
+		return false
+	}
+	for i, response := range p.MUserResponses {
+		if i < 0 || i >= len(pk.R) || response == nil {
+			return false
+		}
+	}
+	return true
+}
+
 // VerifyWithChallenge verifies whether the proof is correct.
 func (p *ProofU) VerifyWithChallenge(pk *gabikeys.PublicKey, reconstructedChallenge *big.Int) bool {
-	return p.correctResponseSizes(pk) && p.C.Cmp(reconstructedChallenge) == 0
+	return p.verifyStructure(pk) && p.correctResponseSizes(pk) && p.C.Cmp(reconstructedChallenge) == 0
 }
 
 // reconstructUcommit reconstructs U from the information in the proof and the
 // provided public key.
 func (p *ProofU) reconstructUcommit(pk *gabikeys.PublicKey) (*big.Int, error) {
+	if !p.verifyStructure(pk) {
+		return nil, errors.New("malformed proof")
+	}
 	// Reconstruct Ucommit
 	// U_commit = U^{-C} * S^{VPrimeResponse} * R_0^{SResponse}
 	Uc, err := common.ModPow(p.U, new(big.Int).Neg(p.C), pk.N)
@@ -200,6 +217,25 @@ func (p *ProofD) reconstructRangeProofStructures(pk *gabikeys.PublicKey) error {
 	return nil
 }
 
+// verifyStructure checks that all mandatory values are present and that the attribute indices
+// refer to bases that exist in the public key, so that untrusted proofs cannot cause panics.
+func (p *ProofD) verifyStructure(pk *gabikeys.PublicKey) bool {
+	if p.C == nil || p.A == nil || p.EResponse == nil || p.VResponse == nil {
+		return false
+	}
+	for i, response := range p.AResponses {
+		if i < 0 || i >= len(pk.R) || response == nil {
+			return false
+		}
+	}
+	for i, attribute := range p.ADisclosed {
+		if i < 0 || i >= len(pk.R) || attribute == nil {
+			return false
+		}
+	}
+	return true
+}
+
 // correctResponseSizes checks the sizes of the elements in the ProofD proof.
 func (p *ProofD) correctResponseSizes(pk *gabikeys.PublicKey) bool {
 	minimum := big.NewInt(0)
@@ -222,6 +258,9 @@ func (p *ProofD) correctResponseSizes(pk *gabikeys.PublicKey) bool {
 // reconstructZ reconstructs Z from the information in the proof and the
 // provided public key.
 func (p *ProofD) reconstructZ(pk *gabikeys.PublicKey) (*big.Int, error) {
+	if !p.verifyStructure(pk) {
+		return nil, errors.New("malformed proof")
+	}
 	// An attribute is either disclosed or hidden. If an index were allowed in both maps, the
 	// prover could split a signed attribute m = x + y, report an arbitrary x as "disclosed"
 	// and prove knowledge of the remainder y.
@@ -291,6 +330,9 @@ func (p *ProofD) HasNonRevocationProof() bool {
 // VerifyWithChallenge verifies the proof against the given public key and the provided
 // reconstructed challenge.
 func (p *ProofD) VerifyWithChallenge(pk *gabikeys.PublicKey, reconstructedChallenge *big.Int) bool {
+	if !p.verifyStructure(pk) {
+		return false
+	}
 	var notrevoked bool
 	// Validate non-revocation
 	if p.HasNonRevocationProof() {
